@@ -55,6 +55,11 @@ CHECKS = {
          "Held on the executions observed: sync/async functions, impl methods, #[test]/#[tokio::test] mixed with other attributes and comments, #[cfg(test)] and plain modules (nested), loops of every kind, chains, look-alikes, blocking wrappers; allow_in_tests / allow_expect / detect_* swept in yaml/json with hyphen/underscore section names; evidence counts planted calls per kind and context.",
          "Trusted: generator ground truth; clone statements constructed to fall into exactly one documented category; constructs the documentation is silent about are not generated.",
          "DESIGN.md section 4 C17"),
+
+ "C18": ("runtime monitoring: boundary trace of `thailint file-placement` under generated rule sets (inline --rules, yaml/json section hyphen/underscore, --config) over a tree with look-alike directories; reference evaluator written from the property text; invalid-regex cases must exit 2",
+         "Held on the executions observed: random rule sets over a directory/pattern alphabet (nested directory rules, overlapping allow/deny, global_deny, global_patterns) x 21 paths, runs from the root and from a sub-directory; thorough tier enumerates all directory-key pairs x 3x3 rule bodies exhaustively; evidence counts verdicts and carriers.",
+         "Trusted: the reference evaluator (deny over allow, most specific containing directory by path components, directory over global, re.search case-insensitive); files compared as a set.",
+         "DESIGN.md section 4 C18"),
 }
 PENDING = {}
 props = [json.loads(l) for l in open(os.path.join(HERE, "properties.jsonl"))]
